@@ -23,9 +23,15 @@ CLAIMED = {
         note="Trusted: SimFS fidelity (self-tested against the real file system), the independent decoders (gzip/bz2/lz4/zstandard/json/csv/fastavro/sqlite3). Finaliser timing is outside the histories. One known finding (stream writer closed with no records and no flush leaves no header; pinned by an existing test) is listed in KNOWN_FINDINGS.txt.",
         technique="deterministic simulation: bounded-exhaustive call histories per adapter + seeded histories, simulated clock and file system (rename/truncate event log), conservation oracle",
     ),
+    "C18": dict(
+        category="exploration", design_ref="DESIGN.md 5.6",
+        text="Deterministic simulation with a real SQLite engine: one SqliteWriter, independent observer connections that look between any two writer calls, a lock holder that keeps a read transaction open across the writer's commits (raw connection or the library's own SqliteReader suspended between batches), releases, and crash snapshots (db + journal copied and opened) are scheduled by a seeded plan over gain-only schema evolution with SQL-keyword/mixed-case/slashed names and boundary values; every workload is re-executed under a second batch size. Oracle: what any observer or snapshot sees is a prefix of the acknowledged rows whose length is a commit point of the documented policy and never shrinks; after close everything is there exactly once (refused-by-BUSY rows 0 or 1 times), shape and cell values match an independently computed expectation, SqliteReader returns the same values, and content is identical across batch sizes; after the lock is released one retry of close() succeeds.",
+        note="Trusted: the SQLite engine and its file locking (real, not simulated); crash = byte copy between two API calls; identifiers differing only by case and conflicting column re-declarations are outside the domain.",
+        technique="deterministic simulation: seeded schedule of observer looks / lock holders / crash snapshots between writer calls against a committed-prefix reference model, real SQLite engine",
+    ),
 }
 
-BUILDING = {k: "simulation target per DESIGN.md; its check is still under construction and is therefore not claimed yet" for k in ("C11", "C16", "C18")}
+BUILDING = {k: "simulation target per DESIGN.md; its check is still under construction and is therefore not claimed yet" for k in ("C11", "C16")}
 
 NOT_APPLICABLE = {
     "C01": "pure encode/decode function of its input (value identity of the codec): no schedule, clock, fault or crash point for a simulator to own; its I/O side is simulated under C04/C11/C03",
